@@ -201,6 +201,9 @@ func (r *dbRunner) doOp(db *simpledb.DB, sess, client, idx int, op dbOp, hist *[
 	if op.Kind == "put" {
 		rec.Val = valueFor(rec.ID, op.ValLen)
 	}
+	if op.Kind == "delempty" {
+		rec.Key = ""
+	}
 	*hist = append(*hist, rec)
 	rec.Inv = r.w.Emit(simrt.Event{Kind: simrt.EvInvoke, N: int64(rec.ID)})
 	var err error
@@ -209,6 +212,10 @@ func (r *dbRunner) doOp(db *simpledb.DB, sess, client, idx int, op dbOp, hist *[
 		err = db.Put(rec.Key, rec.Val)
 	case "del":
 		err = db.Delete(rec.Key)
+	case "delempty":
+		// Delete of the empty key: the documentation does not say whether it is rejected. Either way it must not
+		// change what any other key reads as (no value can exist under the empty key: Put rejects it).
+		_ = db.Delete("")
 	case "get":
 		var v string
 		v, err = db.Get(rec.Key)
